@@ -32,31 +32,7 @@ def check_program(ctx: Ctx, fx, g, p, stage: str):
 
 def h_pipeline(ctx: Ctx, cfg):
     """create -> map -> (mutate | crossover)* ; every phenotype is checked"""
-    fx, g = synth.make_grammar(ctx, cfg)
-    r = FreshRandom(ctx)
-    try:
-        rep = synth.make_rep(cfg, g, r)
-        g1 = synth.fuel_genes(ctx, cfg, rep.create_genotype(r))
-        p1 = rep.genotype_to_phenotype(g1)
-    except synth.LIBRARY_ERRORS:
-        return
-    check_program(ctx, fx, g, p1, "create")
-    cur = g1
-    for k, op in enumerate(cfg.get("ops", [])):
-        try:
-            if op == "mutate":
-                cur = synth.fuel_genes(ctx, cfg, rep.mutate(r, cur))
-                ph = [rep.genotype_to_phenotype(cur)]
-            else:
-                other = rep.create_genotype(r)
-                c1, c2 = rep.crossover(r, cur, other)
-                c1, c2 = synth.fuel_genes(ctx, cfg, c1), synth.fuel_genes(ctx, cfg, c2)
-                ph = [rep.genotype_to_phenotype(c1), rep.genotype_to_phenotype(c2)]
-                cur = c1
-        except synth.LIBRARY_ERRORS:
-            return
-        for p in ph:
-            check_program(ctx, fx, g, p, f"{op}#{k}")
+    synth.pipeline(ctx, cfg, check_program)
 
 
 HARNESSES = {"pipeline": h_pipeline}
